@@ -190,5 +190,22 @@ pub fn cases(rng: &mut Rng, tier: &str) -> (Vec<Case>, bool) {
             show,
         });
     }
+    // a line number directly followed by a numeral that begins with a point: `10.5 PRINT 2` is line 10 with the text `.5 PRINT 2`
+    for (typed, listed) in [
+        (&["10 PRINT 1", "10.5 PRINT 2", "020.75", "30 .25", "0.0REM x", "18446744073709551615.125"][..], "10 0.5 PRINT 2\n20 0.75\n30 0.25\n0 0 REM x\n18446744073709551615 0.125"),
+        (&["5.5", "5.5.5", "7 .", "8."][..], "5 0.5"),
+    ] {
+        let mut ops = vec!["new 0 0".to_string()];
+        for t in typed.iter() {
+            ops.push(start(t));
+        }
+        ops.push("take".to_string());
+        ops.push(start("LIST"));
+        ops.push("take".to_string());
+        let mut lines: Vec<(u64, String)> = listed.split('\n').map(|l| (l.split(' ').next().unwrap().parse::<u64>().unwrap(), format!("{}\n", l))).collect();
+        lines.sort();
+        let want = lines.iter().map(|(_, l)| format!("P:{}", crate::gen::hexs(l))).collect::<Vec<_>>().join(" ");
+        cases.push(Case { ops: ops.clone(), checks: vec![format!("take-is {} {}", ops.len() - 1, want)], tag: "number-glued-to-a-leading-point".into(), nontrivial: true, show: format!("{:?}", typed) });
+    }
     (cases, false)
 }
